@@ -81,6 +81,9 @@ class Ctx:
         return None
 
     def violation(self, what, case, go, spec):
+        if go == 'notrun' or (isinstance(go, str) and go.startswith('notrun')):
+            self.notrun = getattr(self, 'notrun', 0) + 1   # not evidence of anything: run_lines gave up after MAX_STALLS hangs
+            return
         k = self.in_known(case)
         if k is not None:
             if k not in self.known_hit:
@@ -89,6 +92,8 @@ class Ctx:
         self.violations.append((what, case, go, spec))
 
     def disagreement(self, what, case, go, model):
+        if go == 'notrun' or model == 'notrun':
+            return
         self.disagreements.append((what, case, go, model))
 
     def compare3(self, what, cases, go, model, spec, proj_model=None, proj_spec=None, nontrivial=None):
@@ -107,6 +112,9 @@ class Ctx:
         self.streams.append({'stream': what, 'cases': len(cases)})
 
 
+MAX_STALLS = 40
+
+
 def run_lines(cmd, lines, env=None, parallel=True, restart=True):
     """Feed lines to a line-protocol process; returns one answer per line.
     A process that dies or times out mid-way is restarted at the following line; the line on which it
@@ -117,10 +125,16 @@ def run_lines(cmd, lines, env=None, parallel=True, restart=True):
     size = (len(lines) + nchunks - 1) // nchunks
     chunks = [lines[i:i + size] for i in range(0, len(lines), size)]
 
+    stalls = {'n': 0}   # lines (over all chunks) on which the process hung or died; past MAX_STALLS the rest is not run —
+                        # the check has failed by then, and thousands of 4-second watchdog waits would tell nothing more
+
     def work(chunk):
         res = []
         pos = 0
         while pos < len(chunk):
+            if stalls['n'] >= MAX_STALLS:
+                res.extend(['notrun'] * (len(chunk) - pos))
+                break
             data = '\n'.join(chunk[pos:]) + '\n'
             p = subprocess.run(cmd, input=data, stdout=subprocess.PIPE, stderr=subprocess.PIPE, text=True, env=env)
             outl = p.stdout.split('\n')
@@ -133,6 +147,7 @@ def run_lines(cmd, lines, env=None, parallel=True, restart=True):
                 break
             res.extend(outl)
             pos += len(outl)
+            stalls['n'] += 1
             if outl and outl[-1] == 'timeout':
                 continue  # the timeout line itself was answered
             # died without answering line `pos`
@@ -399,6 +414,9 @@ def finish(ctx, mod, n_obligations_expected):
     for k in ctx.known_hit:
         lines.append(k.get('line') if str(k.get('line', '')).startswith('KNOWN-FINDING: property=%s ' % pid) else 'KNOWN-FINDING: property=%s %s' % (pid, k.get('what', k.get('id', ''))))
     replay_path = None
+    if getattr(ctx, 'notrun', 0) and not ctx.violations and not ctx.disagreements:
+        # lines were given up after MAX_STALLS hangs, yet nothing recorded a failure: the run decided nothing
+        ctx.broken_obligations.append('correspondence: %d lines not run after %d hangs / crashes of the harness or the driver' % (ctx.notrun, MAX_STALLS))
     if ctx.violations:
         what, case, go, spec = ctx.violations[0]
         replay_path = V + '/replays/%s-%s-%d.json' % (pid, ctx.tier, ctx.seed)
